@@ -62,6 +62,10 @@ func c01Witnesses() []c01Witness {
 		{Name: "prefixed-enum-value-beginning-with-the-type-name",
 			Doc: wDoc(J{}, J{"schemas": J{"Error": J{"type": "string", "enum": []interface{}{"error_not_found", "other"}},
 				"ErrorNotFound": J{"type": "object", "properties": J{"a": J{"type": "string"}}}}})},
+		{Name: "same-name-parameters-in-two-locations-with-types-of-their-own", FW: "chi",
+			Doc: wDoc(J{"/a/{mode}": J{"get": wOp("getA", J{"parameters": []interface{}{
+				J{"name": "mode", "in": "path", "required": true, "schema": J{"type": "string", "enum": []interface{}{"a", "b"}}},
+				J{"name": "mode", "in": "query", "schema": J{"type": "string", "enum": []interface{}{"x", "y"}}}}})}}, nil)},
 		{Name: "two-members-referring-to-a-renamed-schema",
 			Doc: wDoc(J{}, J{"schemas": J{"Z": J{"type": "object", "x-go-name": "ZRenamed", "properties": J{"a": J{"type": "string"}}},
 				"H": J{"type": "object", "properties": J{"first": J{"$ref": "#/components/schemas/Z"}, "second": J{"$ref": "#/components/schemas/Z"}}}}})},
